@@ -21,8 +21,13 @@ import Glom.Model.C10Env
   OpExpr: {"leaf":Spec} | {"and":[a,b]} | {"or":[a,b]} | {"inv":a}
   Obs:   {"ok":V,"log":[n…]} | {"exc":cls,"glom":b,"match":b,"typematch":b,"typeerror":b,"pae":b,"check":b,"log":[n…]}
          | {"ctor":cls}
+  OpExprX: OpExpr with the additional operand {"use":i}   (the object bound by the i-th def step)
+  Step:  {"def":OpExprX} | {"eval":i,"target":V[,"bare":true]}
   case:  {"spec":Spec | "ops":OpExpr, "target":V, "impl":Obs, "impl_bare":Obs|null}
          | {"spec":Spec | "ops":OpExpr, "targets":[V…], "impl_seq":[Obs…]}   -- one spec object, consecutive calls
+         | {"prog":[Step…], "impl_steps":[null | Obs …]}   -- a program over spec objects; one entry per executed
+                                                          -- statement (null: a def that succeeded; it ends with
+                                                          -- the {"ctor":cls} of a def that raised)
 -/
 namespace Glom.C10.Driver
 open Lean Glom Glom.MV Glom.C10
@@ -182,6 +187,18 @@ partial def opsOfJson (j : Json) : Except String OpExpr := do
   else if let .ok a := j.getObjVal? "inv" then return .inv (← opsOfJson a)
   else throw s!"bad OpExpr {j.compress}"
 
+partial def opsXOfJson (j : Json) : Except String OpExprX := do
+  if let .ok s := j.getObjVal? "leaf" then return .leaf (← specOfJson s)
+  else if let .ok i := j.getObjValAs? Nat "use" then return .use i
+  else if let .ok (.arr #[a, b]) := j.getObjVal? "and" then return .band (← opsXOfJson a) (← opsXOfJson b)
+  else if let .ok (.arr #[a, b]) := j.getObjVal? "or" then return .bor (← opsXOfJson a) (← opsXOfJson b)
+  else if let .ok a := j.getObjVal? "inv" then return .inv (← opsXOfJson a)
+  else throw s!"bad OpExprX {j.compress}"
+
+def stepOfJson (j : Json) : Except String Step := do
+  if let .ok e := j.getObjVal? "def" then return .bind (← opsXOfJson e)
+  else return .eval (← j.getObjValAs? Nat "eval") (← vOfJson (← j.getObjVal? "target"))
+
 def logOfJson (j : Json) : Except String Log := do
   (← arrOf (← j.getObjVal? "log")).mapM (fun v => match v.getNat? with | .ok n => .ok n | .error e => .error e)
 
@@ -287,7 +304,61 @@ def judge (sub : Subject) (target : V) (implObs : Obs) (bare : Option Obs) : Jud
         | some e => s!"{specHead s}:ctor-{e.cls}"
         | none => s!"{specHead s}:{verdictTag (denote ct s target).1}" }
 
+def stepObsOfJson (j : Json) : Except String StepObs :=
+  match j with
+  | .null => .ok .bound
+  | _ => do return .obs (← obsOfJson j)
+
+def stepObsToJson : StepObs → Json
+  | .bound => .null
+  | .obs o => obsToJson o
+
+def stepObsAgree : StepObs → StepObs → Bool
+  | .bound, .bound => true
+  | .obs a, .obs b => obsAgree a b
+  | _, _ => false
+
+/-- the inlined definition of every `bind` step, in order -/
+def inlinedDefs : List Step → List OpExpr → List OpExpr
+  | [], defs => defs
+  | .bind e :: rest, defs => inlinedDefs rest (defs ++ [e.subst (defAt defs)])
+  | .eval .. :: rest, defs => inlinedDefs rest defs
+
+/-- a program over spec objects: sub-trees bound to names, evaluated, used as operands of
+    & | ~, the results evaluated, extended again … -/
+def runProgCase (j : Json) (pj : Json) : Except String Json := do
+  let steps ← (← arrOf pj).mapM stepOfJson
+  if !progWF steps 0 then throw "prog: a step names an object that is not bound yet"
+  let defs := inlinedDefs steps []
+  if defs.any hasTOperand then
+    return Json.mkObj [("skip", true), ("why", "T expression as an operand of & | ~ (recorded by TType: C02)")]
+  if defs.any opsOutside then
+    return Json.mkObj [("skip", true), ("why", "operator applied to plain Python values only")]
+  let impl ← (← arrOf (← j.getObjVal? "impl_steps")).mapM stepObsOfJson
+  let ct := genEnv.cls
+  let model := runProg genEnv steps []
+  let agree := model.length == impl.length && (model.zip impl).all (fun p => stepObsAgree p.1 p.2)
+  let holds := checkProg ct steps [] impl
+  -- the first statement at which the property fails: the shortest prefix that does not check
+  let firstBad := (List.range (steps.length + 1)).find? (fun n =>
+    n ≤ impl.length && !checkProg ct (steps.take n) [] (impl.take n))
+  let tag := match (steps.zip model).getLast? with
+    | some (.eval i t, .obs _) =>
+      (match build expectedBoolOps false (defAt defs i) with
+       | .error x => s!"ctor-{x.cls}"
+       | .ok s => s!"{specHead s}:{verdictTag (denote ct s t).1}")
+    | some (_, .obs (.ctor c)) => s!"ctor-{c}"
+    | _ => "bound"
+  return Json.mkObj [("agree", agree), ("holds", holds),
+    ("model", Json.arr (model.map stepObsToJson).toArray),
+    ("branch", Json.str ("prog-" ++ tag)),
+    ("first_failing_step", match (if holds then none else firstBad) with
+      | some n => toJson (n - 1) | none => Json.null),
+    ("wf", WF genEnv), ("model_holds", checkProg ct steps [] model)]
+
 def run (j : Json) : Except String Json := do
+  if let .ok pj := j.getObjVal? "prog" then
+    if pj != Json.null then return ← runProgCase j pj
   let sub ← (do
     if let .ok oj := j.getObjVal? "ops" then
       if oj != Json.null then return Subject.ops (← opsOfJson oj)
